@@ -143,8 +143,8 @@ def known_class(f, what, sig):
 
 
 def PROOFS():
-    from ..contracts import terms_c
-    return [("vf.contracts.terms_c", terms_c.FUNCTIONS)]
+    from ..contracts import terms_c, matrices_c
+    return [("vf.contracts.matrices_c", matrices_c.FUNCTIONS), ("vf.contracts.terms_c", terms_c.FUNCTIONS)]
 
 
 def run(report, findings):
